@@ -1067,4 +1067,286 @@ example : parseCookie (formatCookie [(S "a;b", S "c")]) = [(S "a", []), (S "b", 
 example : decodeMultipart (B "XX") ((encodeMultipart (B "XX") [(B "k", B "v", B "text/plain")]).getD []) = some [(B "k", B "v")] := by
   decide +kernel
 
+/-! ### audit round 6: non-vacuity witnesses (toy codecs that satisfy the assumed urllib laws for ALL inputs) -/
+
+/-- `quote`/`unquote` by shifting every code point out of the ASCII range: satisfies `QuoteLaw` -/
+private def shQ (s : Str) : Str := s.map (· + 200)
+private def ushQ (s : Str) : Str := s.map (· - 200)
+
+private theorem ush_sh (s : Str) : ushQ (shQ s) = s := by
+  induction s with
+  | nil => rfl
+  | cons c r ih => simp [shQ, ushQ] at ih ⊢; exact ih
+
+/-- pair lists as length-prefixed shifted text (no code point below 200, so no `#`, `&`, `=`) -/
+private def ser : List (Str × Str) → Str
+  | [] => []
+  | (k, v) :: r => (k.length + 200) :: (shQ k ++ (v.length + 200) :: (shQ v ++ ser r))
+
+private def de : Nat → Str → List (Str × Str)
+  | 0, _ => []
+  | _ + 1, [] => []
+  | f + 1, n :: rest =>
+    let r2 := rest.drop (n - 200)
+    if r2.isEmpty then [] else
+    (ushQ (rest.take (n - 200)), ushQ (r2.tail.take (r2.headD 0 - 200))) :: de f (r2.tail.drop (r2.headD 0 - 200))
+
+private theorem de_ser (qs : List (Str × Str)) : ∀ f, (ser qs).length ≤ f → de f (ser qs) = qs := by
+  induction qs with
+  | nil => intro f _; cases f <;> rfl
+  | cons e r ih =>
+    obtain ⟨k, v⟩ := e
+    intro f hf
+    cases f with
+    | zero => simp [ser] at hf
+    | succ f =>
+      have hk : (shQ k).length = k.length := by simp [shQ]
+      have hv : (shQ v).length = v.length := by simp [shQ]
+      have d1 : (shQ k ++ (v.length + 200) :: (shQ v ++ ser r)).drop (k.length + 200 - 200) =
+          (v.length + 200) :: (shQ v ++ ser r) := by
+        rw [Nat.add_sub_cancel, ← hk, List.drop_left']; rfl
+      have t1 : (shQ k ++ (v.length + 200) :: (shQ v ++ ser r)).take (k.length + 200 - 200) = shQ k := by
+        rw [Nat.add_sub_cancel, ← hk, List.take_left']; rfl
+      have t2 : (shQ v ++ ser r).take (v.length + 200 - 200) = shQ v := by
+        rw [Nat.add_sub_cancel, ← hv, List.take_left']; rfl
+      have d2 : (shQ v ++ ser r).drop (v.length + 200 - 200) = ser r := by
+        rw [Nat.add_sub_cancel, ← hv, List.drop_left']; rfl
+      have hlen : (ser r).length ≤ f := by
+        simp only [ser, List.length_cons, List.length_append] at hf; omega
+      have e : ser ((k, v) :: r) = (k.length + 200) :: (shQ k ++ (v.length + 200) :: (shQ v ++ ser r)) := rfl
+      rw [e]
+      simp only [de, d1, t1, List.isEmpty_cons, Bool.false_eq_true, if_false, List.tail_cons, List.headD_cons, t2, d2, ush_sh,
+        ih f hlen]
+
+private theorem ser_big : ∀ qs, ∀ x ∈ ser qs, 200 ≤ x := by
+  intro qs
+  induction qs with
+  | nil => intro x hx; cases hx
+  | cons e r ih =>
+    obtain ⟨k, v⟩ := e
+    intro x hx
+    simp only [ser, List.mem_cons, List.mem_append, shQ, List.mem_map] at hx
+    rcases hx with rfl | ⟨a, _, rfl⟩ | rfl | ⟨a, _, rfl⟩ | hx
+    · omega
+    · omega
+    · omega
+    · omega
+    · exact ih x hx
+
+private def toyCodec : UrlCodec where
+  urlencode qs := ser qs
+  parseQsl s := de s.length s
+  quote := shQ
+  unquote := ushQ
+
+private theorem toy_law (ps : List (Str × Str)) : toyCodec.parseQsl (toyCodec.urlencode ps) = ps :=
+  de_ser ps _ (Nat.le_refl _)
+
+private theorem toy_quote : QuoteLaw toyCodec where
+  inv := ush_sh
+  clean := by
+    intro c x hx
+    simp only [toyCodec, shQ, List.mem_map] at hx
+    obtain ⟨a, _, rfl⟩ := hx
+    refine ⟨by omega, by omega, by omega, by omega⟩
+  nonempty := by
+    intro c hc h
+    apply hc
+    simpa [toyCodec, shQ] using h
+
+/-- `path_components_roundtrip` is not vacuous: `QuoteLaw` has an instance, and on a target with `;params`, query and fragment
+    the components `["a b", "ü/", "x"]` read back -/
+example : getPathComponents toyCodec (S "http") (setPathComponents toyCodec (S "http") (S "/old;k?v=1#f") [S "a b", [252, 47], S "x"])
+    = [S "a b", [252, 47], S "x"] :=
+  (path_components_roundtrip toyCodec toy_quote (S "http") (S "/old;k?v=1#f") [S "a b", [252, 47], S "x"]
+    (by intro c hc; simp only [List.mem_cons, List.mem_singleton, List.not_mem_nil, or_false] at hc
+        rcases hc with rfl | rfl | rfl <;> decide)).1
+
+/-- `query_view_roundtrip` is not vacuous: the urllib law has an instance; pairs with separators, `#` and empty strings read back -/
+example : getQuery toyCodec (setQuery toyCodec { path := S "/p", params := [], query := S "old=1", fragment := S "f" }
+    [(S "a&b", S "c=d#"), ([], []), (S "k", [])]) = [(S "a&b", S "c=d#"), ([], []), (S "k", [])] :=
+  (query_view_roundtrip toyCodec toy_law _ _).1
+
+/-- `query_view_roundtrip_target` is not vacuous either (law, no `#` written, a target with `//`, several `?` and a fragment) -/
+example : getQueryOf toyCodec (S "http") (setQueryOf toyCodec (S "http") (S "//a/b?v=1?w#f#g") [(S "a&b", S "c=d#"), ([], [])])
+    = [(S "a&b", S "c=d#"), ([], [])] :=
+  (query_view_roundtrip_target toyCodec toy_law
+    (by intro ps h; have := ser_big ps 35 h; omega) (S "http") (S "//a/b?v=1?w#f#g") [(S "a&b", S "c=d#"), ([], [])]
+    (by decide +kernel) (by decide +kernel)).1
+
+/-- `set_cookie_roundtrip` / `set_cookie_header_roundtrip`: `RepSc` holds for a realistic response (two cookies with attributes,
+    a quoted value with `;`, a unary attribute, an `expires` date without comma) -/
+example : getSetCookies (setSetCookies
+    [[(S "sid", some (S "a;b c")), (S "Path", some (S "/admin")), (S "HttpOnly", none)],
+     [(S "t", some []), (S "expires", some (S "01 Jan 2030 00:00:00 GMT")), (S "Max-Age", some (S "0"))]]) =
+    [[(S "sid", some (S "a;b c")), (S "Path", some (S "/admin")), (S "HttpOnly", none)],
+     [(S "t", some []), (S "expires", some (S "01 Jan 2030 00:00:00 GMT")), (S "Max-Age", some (S "0"))]] :=
+  set_cookie_roundtrip _
+    (by intro c hc; simp only [List.mem_cons, List.mem_singleton, List.not_mem_nil, or_false] at hc
+        rcases hc with rfl | rfl <;> simp)
+    (by intro c hc e he
+        simp only [List.mem_cons, List.mem_singleton, List.not_mem_nil, or_false] at hc
+        rcases hc with rfl | rfl <;>
+          (simp only [List.mem_cons, List.mem_singleton, List.not_mem_nil, or_false] at he
+           rcases he with rfl | rfl | rfl <;> exact ⟨by decide, by decide, by decide⟩))
+
+/-! #### a witness for `form_view_roundtrip`: a toy urlencode that writes only the ASCII characters `x , = ;` (code points in
+unary), so that it survives the byte round trip; all four hypotheses hold for ALL pair lists -/
+
+/-- a code point in unary: `c` times `x`, then `,` -/
+private def encC (c : Nat) : Str := List.replicate c 120 ++ [44]
+private def encS (s : Str) : Str := s.flatMap encC
+private def encP (e : Str × Str) : Str := encS e.1 ++ 61 :: (encS e.2 ++ [59])
+private def enc (qs : List (Str × Str)) : Str := qs.flatMap encP
+
+private def readNum (s : Str) : Nat × Str := ((s.takeWhile (· == 120)).length, (s.dropWhile (· == 120)).tail)
+
+private theorem readNum_encC (c : Nat) (rest : Str) : readNum (encC c ++ rest) = (c, rest) := by
+  unfold readNum encC
+  induction c with
+  | zero => simp
+  | succ n ih =>
+    simp only [List.replicate_succ, List.cons_append]
+    simp only [List.takeWhile_cons, List.dropWhile_cons, beq_self_eq_true, if_true, List.length_cons]
+    simp only [List.append_assoc] at ih ⊢
+    rw [Prod.mk.injEq] at ih ⊢
+    exact ⟨by rw [ih.1], ih.2⟩
+
+/-- decode one string up to (and consuming) its terminator `=` or `;` -/
+private def decS : Nat → Str → Str × Str
+  | 0, s => ([], s)
+  | _ + 1, [] => ([], [])
+  | f + 1, c :: r =>
+    if c = 61 ∨ c = 59 then ([], r)
+    else ((readNum (c :: r)).1 :: (decS f (readNum (c :: r)).2).1, (decS f (readNum (c :: r)).2).2)
+
+private theorem encC_head (c : Nat) (rest : Str) : ∃ h t, encC c ++ rest = h :: t ∧ h ≠ 61 ∧ h ≠ 59 := by
+  cases c with
+  | zero => exact ⟨44, rest, by simp [encC], by decide, by decide⟩
+  | succ n => exact ⟨120, List.replicate n 120 ++ [44] ++ rest, by simp [encC, List.replicate_succ], by decide, by decide⟩
+
+private theorem decS_encS (s : Str) (t : Nat) (ht : t = 61 ∨ t = 59) (rest : Str) :
+    ∀ f, (encS s).length < f → decS f (encS s ++ t :: rest) = (s, rest) := by
+  induction s with
+  | nil =>
+    intro f hf
+    cases f with
+    | zero => omega
+    | succ f => simp [encS, decS, ht]
+  | cons c s ih =>
+    intro f hf
+    cases f with
+    | zero => omega
+    | succ f =>
+      have e : encS (c :: s) ++ t :: rest = encC c ++ (encS s ++ t :: rest) := by simp [encS]
+      rw [e]
+      obtain ⟨h, tl, ehd, h1, h2⟩ := encC_head c (encS s ++ t :: rest)
+      rw [ehd]
+      simp only [decS, h1, h2, or_self, if_false]
+      rw [← ehd, readNum_encC]
+      have hl : (encS s).length < f := by
+        simp only [encS, List.flatMap_cons, List.length_append, encC, List.length_replicate, List.length_cons,
+          List.length_nil] at hf ⊢
+        omega
+      rw [ih f hl]
+
+private def parse : Nat → Str → List (Str × Str)
+  | 0, _ => []
+  | _ + 1, [] => []
+  | f + 1, c :: r =>
+    ((decS (c :: r).length (c :: r)).1, (decS (c :: r).length (decS (c :: r).length (c :: r)).2).1) ::
+      parse f (decS (c :: r).length (decS (c :: r).length (c :: r)).2).2
+
+private theorem enc_cons (k v : Str) (r : List (Str × Str)) :
+    enc ((k, v) :: r) = encS k ++ 61 :: (encS v ++ 59 :: enc r) := by
+  simp [enc, encP]
+
+private theorem parse_enc (qs : List (Str × Str)) : ∀ f, (enc qs).length ≤ f → parse f (enc qs) = qs := by
+  induction qs with
+  | nil => intro f _; cases f <;> rfl
+  | cons e r ih =>
+    obtain ⟨k, v⟩ := e
+    intro f hf
+    rw [enc_cons] at hf ⊢
+    have hne : ∃ h tl, encS k ++ 61 :: (encS v ++ 59 :: enc r) = h :: tl := by
+      cases hk : encS k with
+      | nil => exact ⟨61, _, rfl⟩
+      | cons a b => exact ⟨a, _, rfl⟩
+    obtain ⟨h, tl, ehd⟩ := hne
+    cases f with
+    | zero => simp at hf
+    | succ f =>
+      have hlen := hf
+      rw [ehd] at hf ⊢
+      simp only [parse]
+      rw [← ehd]
+      have l1 : (encS k).length < (encS k ++ 61 :: (encS v ++ 59 :: enc r)).length := by
+        simp only [List.length_append, List.length_cons]; omega
+      have l2 : (encS v).length < (encS k ++ 61 :: (encS v ++ 59 :: enc r)).length := by
+        simp only [List.length_append, List.length_cons]; omega
+      rw [decS_encS k 61 (Or.inl rfl) _ _ l1]
+      simp only
+      rw [decS_encS v 59 (Or.inr rfl) _ _ l2]
+      simp only
+      rw [ih f (by simp only [List.length_append, List.length_cons] at hlen; omega)]
+
+private theorem enc_chars (qs : List (Str × Str)) : ∀ x ∈ enc qs, x = 120 ∨ x = 44 ∨ x = 61 ∨ x = 59 := by
+  intro x hx
+  simp only [enc, encP, encS, encC, List.mem_flatMap, List.mem_append, List.mem_cons, List.mem_replicate,
+    List.mem_singleton, List.not_mem_nil, or_false] at hx
+  obtain ⟨e, _, h⟩ := hx
+  rcases h with ⟨c, _, h⟩ | rfl | ⟨c, _, h⟩ | rfl
+  · rcases h with ⟨_, rfl⟩ | rfl <;> simp
+  · simp
+  · rcases h with ⟨_, rfl⟩ | rfl <;> simp
+  · simp
+
+private theorem splitAmp_noamp (s : Str) (h : 38 ∉ s) : splitAmp s = [s] := by
+  induction s with
+  | nil => rfl
+  | cons c r ih =>
+    have hc : c ≠ 38 := fun e => h (by simp [e])
+    have := ih (fun m => h (List.mem_cons_of_mem _ m))
+    simp [splitAmp, hc, this]
+
+private theorem enc_notbare (qs : List (Str × Str)) : bareStyle (enc qs) = false := by
+  cases qs with
+  | nil => rfl
+  | cons e r =>
+    obtain ⟨k, v⟩ := e
+    have hno : 38 ∉ enc ((k, v) :: r) := by
+      intro m; rcases enc_chars _ 38 m with h | h | h | h <;> cases h
+    have h61 : (enc ((k, v) :: r)).contains 61 = true := by
+      rw [enc_cons]; simp
+    have hm : 61 ∈ enc ((k, v) :: r) := by simpa using h61
+    simp [bareStyle, splitAmp_noamp _ hno, hm]
+
+private def toyForm : FormLib where
+  U := { urlencode := enc, parseQsl := fun s => parse s.length s, quote := id, unquote := id }
+  getText _ b := b.map (·.toNat)
+  encodeAscii s := s.map UInt8.ofNat
+
+private theorem toy_dec (qs : List (Str × Str)) :
+    toyForm.getText (some formCT) (toyForm.encodeAscii (toyForm.U.urlencode qs)) = toyForm.U.urlencode qs := by
+  show ((enc qs).map UInt8.ofNat).map (·.toNat) = enc qs
+  rw [List.map_map]
+  have : ∀ x ∈ enc qs, ((·.toNat) ∘ UInt8.ofNat) x = x := by
+    intro x hx
+    rcases enc_chars qs x hx with rfl | rfl | rfl | rfl <;> rfl
+  rw [List.map_congr_left this, List.map_id']
+
+
+private theorem toy_form_law (qs : List (Str × Str)) : toyForm.U.parseQsl (toyForm.U.urlencode qs) = qs :=
+  parse_enc qs _ (Nat.le_refl _)
+
+/-- `form_view_roundtrip` is not vacuous: on a request that carried `text/plain; charset=utf-16` and the body `a=1&b=2`, assigning
+    pairs with separators and an empty value reads them back, the header becomes the bare form type, and write-back is idempotent -/
+example : getForm toyForm (setForm toyForm { ct := some (S "text/plain; charset=utf-16"), body := B "a=1&b=2" }
+      [(S "a&b", S "c=d"), (S "k", [])]) = [(S "a&b", S "c=d"), (S "k", [])] ∧
+    (setForm toyForm { ct := some (S "text/plain; charset=utf-16"), body := B "a=1&b=2" } [(S "a&b", S "c=d"), (S "k", [])]).ct
+      = some formCT :=
+  have h := form_view_roundtrip toyForm { ct := some (S "text/plain; charset=utf-16"), body := B "a=1&b=2" }
+    [(S "a&b", S "c=d"), (S "k", [])] toy_form_law toy_dec enc_notbare (by decide +kernel)
+  ⟨h.1, h.2.1⟩
+
 end MitmVerif.Props.C34
